@@ -8,7 +8,7 @@ pub fn sha(text: &[u8]) -> String {
     d.iter().map(|b| format!("{b:02x}")).collect()
 }
 
-pub const OUTCOMES: [&str; 17] = [
+pub const OUTCOMES: [&str; 18] = [
     "Theorem",
     "CounterSatisfiable",
     "ContradictoryAxioms",
@@ -26,11 +26,12 @@ pub const OUTCOMES: [&str; 17] = [
     "TheoremAfterLongOutput",
     "TimeoutAfterLongOutput",
     "GaveUpThenTheorem",
+    "TheoremThenKilledBySignal",
 ];
 
 /// does a prover run with this outcome print `SZS status Theorem` (in valid UTF-8 output)?
 pub fn prints_theorem(outcome: &str) -> bool {
-    matches!(outcome, "Theorem" | "TheoremNonZeroExit" | "TheoremAfterLongOutput")
+    matches!(outcome, "Theorem" | "TheoremNonZeroExit" | "TheoremAfterLongOutput" | "TheoremThenKilledBySignal")
 }
 
 pub fn main() -> ! {
@@ -48,7 +49,9 @@ pub fn main() -> ! {
     let id = format!("{}-{}", std::process::id(), std::time::SystemTime::now().duration_since(std::time::UNIX_EPOCH).map(|d| d.as_nanos()).unwrap_or(0));
     let _ = std::fs::write(format!("{dir}/recv-{id}.p"), &input);
     let entry = plan.get("problems").and_then(|p| p.get(&h));
-    let outcome = entry.and_then(|e| e.get("outcome")).and_then(|x| x.as_str()).unwrap_or("NoPlan").to_string();
+    // (a problem the plan does not list gets the outcome named by STUB_DEFAULT_OUTCOME, if any)
+    let fallback = std::env::var("STUB_DEFAULT_OUTCOME").unwrap_or_else(|_| "NoPlan".into());
+    let outcome = entry.and_then(|e| e.get("outcome")).and_then(|x| x.as_str()).unwrap_or(&fallback).to_string();
     let delay = entry.and_then(|e| e.get("delay_ms")).and_then(|x| x.as_u64()).unwrap_or(0);
     std::thread::sleep(std::time::Duration::from_millis(delay));
     let out = std::io::stdout();
@@ -98,6 +101,15 @@ pub fn main() -> ! {
         "NoStatusNonZeroExit" => {
             let _ = out.write_all(b"segmentation fault\n");
             139
+        }
+        "TheoremThenKilledBySignal" => {
+            // the prover finds its proof and then dies (a crash on exit, the OOM killer)
+            let _ = out.write_all(status("Theorem").as_bytes());
+            let _ = out.flush();
+            unsafe {
+                libc::kill(libc::getpid(), libc::SIGSEGV);
+            }
+            1
         }
         "KilledBySignal" => {
             let _ = out.flush();
